@@ -191,7 +191,7 @@ func (w *world) checkKeyCursors(ctx context.Context, fs2 *tsm1.FileStore, want m
 					// order and uniqueness over everything returned
 					for i := 1; i < len(got); i++ {
 						if asc && got[i-1].ts >= got[i].ts || !asc && got[i-1].ts <= got[i].ts {
-							r.Violate("C06:order", "keycursor-order"+cycleTag(fs2.Files(), []byte(k), asc), "KeyCursor(%q, t=%d, asc=%v, array=%v) returned ts %d then %d", k, t, asc, array, got[i-1].ts, got[i].ts)
+							r.Violate("C06:order", "keycursor-order"+cycleTag(fs2.Files(), []byte(k), t, asc), "KeyCursor(%q, t=%d, asc=%v, array=%v) returned ts %d then %d", k, t, asc, array, got[i-1].ts, got[i].ts)
 							return
 						}
 					}
@@ -213,7 +213,7 @@ func (w *world) checkKeyCursors(ctx context.Context, fs2 *tsm1.FileStore, want m
 						}
 					}
 					if d := diffPV(e2, g2); d != "" {
-						r.Violate("C06:wrong-merge", "keycursor-merge"+cycleTag(fs2.Files(), []byte(k), asc), "KeyCursor(%q, t=%d, asc=%v, array=%v) over %d files: %s", k, t, asc, array, len(fs2.Files()), d)
+						r.Violate("C06:wrong-merge", "keycursor-merge"+cycleTag(fs2.Files(), []byte(k), t, asc), "KeyCursor(%q, t=%d, asc=%v, array=%v) over %d files: %s", k, t, asc, array, len(fs2.Files()), d)
 						return
 					}
 				}
@@ -222,64 +222,88 @@ func (w *world) checkKeyCursors(ctx context.Context, fs2 *tsm1.FileStore, want m
 	}
 }
 
-func cycleTag(files []tsm1.TSMFile, key []byte, asc bool) string {
-	if orderCycle(locsOf(files, key), asc) {
-		return ":keycursor-order-cycle"
-	}
-	return ""
-}
-
 // ---- known finding C06-F1: the order KeyCursor gives the block locations of a key is not a strict weak order
+//
+// KeyCursor sorts the block locations of a key with a comparison (overlapping blocks by file path, disjoint ones by
+// time) that can be cyclic; sort.Sort may then put an older file's block BEHIND an overlapping block of a newer
+// file, and the merge lets the old value win.  A wrong read is attributed to that finding only if this is what
+// actually happens for the cursor in question: the locations are collected the way FileStore.locations collects
+// them for the seek time and direction, sorted with the same comparison by the same sort.Sort, and the result is
+// inspected.  A wrong read on a cursor whose locations come out in a consistent order is a different defect.
 
 type blockLoc struct {
 	path     string
 	min, max int64
 }
 
-func locsOf(files []tsm1.TSMFile, key []byte) []blockLoc {
+func locsOf(files []tsm1.TSMFile, key []byte, t int64, asc bool) []blockLoc {
 	var out []blockLoc
 	for _, tf := range files {
 		rd, ok := tf.(*tsm1.TSMReader)
-		if !ok || !tf.Contains(key) {
+		if !ok {
 			continue
 		}
+		fmin, fmax := tf.TimeRange()
+		if asc && fmax < t || !asc && fmin > t {
+			continue
+		}
+		tombs := tf.TombstoneRange(key)
 		var ents []tsm1.IndexEntry
 		ents = rd.ReadEntries(key, &ents)
+	next:
 		for _, e := range ents {
+			for _, tr := range tombs {
+				if tr.Min <= e.MinTime && tr.Max >= e.MaxTime {
+					continue next
+				}
+			}
+			if asc && e.MaxTime < t || !asc && e.MinTime > t {
+				continue
+			}
 			out = append(out, blockLoc{tf.Path(), e.MinTime, e.MaxTime})
 		}
 	}
 	return out
 }
 
-// orderCycle reports whether the comparison KeyCursor sorts block locations with (overlapping blocks by file
-// path, disjoint ones by time) is cyclic on this key's blocks: three blocks a<b<c<a.  Only then can the sort put
-// an older file's block behind an overlapping block of a newer file (a total, acyclic comparison is a
-// consistent order).  This is the exact precondition of known finding C06-F1; a wrong read on a layout
-// without such a cycle is a different defect.
-func orderCycle(locs []blockLoc, asc bool) bool {
-	less := func(a, b blockLoc) bool {
-		if a.min <= b.max && a.max >= b.min {
-			return a.path < b.path
-		}
-		if asc {
-			return a.min < b.min
-		}
-		return a.max < b.max
+type locSort struct {
+	l   []blockLoc
+	asc bool
+}
+
+func (s locSort) Len() int      { return len(s.l) }
+func (s locSort) Swap(i, j int) { s.l[i], s.l[j] = s.l[j], s.l[i] }
+func (s locSort) Less(i, j int) bool {
+	a, b := s.l[i], s.l[j]
+	if a.min <= b.max && a.max >= b.min {
+		return a.path < b.path
 	}
-	for i := range locs {
-		for j := range locs {
-			if i == j || !less(locs[i], locs[j]) {
-				continue
-			}
-			for k := range locs {
-				if k != i && k != j && less(locs[j], locs[k]) && less(locs[k], locs[i]) {
-					return true
-				}
+	if s.asc {
+		return a.min < b.min
+	}
+	return a.max < b.max
+}
+
+// misordered reports whether, after the cursor's own sort, some block of an older file stands behind an
+// overlapping block of a newer file.
+func misordered(locs []blockLoc, asc bool) bool {
+	l := append([]blockLoc(nil), locs...)
+	sort.Sort(locSort{l, asc})
+	for i := range l {
+		for j := i + 1; j < len(l); j++ {
+			if l[i].min <= l[j].max && l[i].max >= l[j].min && l[i].path > l[j].path {
+				return true
 			}
 		}
 	}
 	return false
+}
+
+func cycleTag(files []tsm1.TSMFile, key []byte, t int64, asc bool) string {
+	if misordered(locsOf(files, key, t, asc), asc) {
+		return ":keycursor-order-cycle"
+	}
+	return ""
 }
 
 // stampTree gives every file under dir the current simulated time as modification time.
@@ -660,6 +684,11 @@ func (w *world) checkTombstoneCommit(dir string, files []*tsm1.TSMReader) {
 		return
 	}
 	oldSet := tset(rd)
+	before, _, berr := contentOf([]*tsm1.TSMReader{rd})
+	if berr != nil {
+		rd.Close()
+		return
+	}
 	// the delete: a few keys, a generated range
 	var keys [][]byte
 	for i := 0; i < rd.KeyCount() && len(keys) < 3; i++ {
@@ -703,13 +732,107 @@ func (w *world) checkTombstoneCommit(dir string, files []*tsm1.TSMReader) {
 		rd.Close()
 		return
 	}
+	// Model of what the file shows: its content before the delete minus [min,max] of the chosen keys.  The live
+	// reader must show it right after the commit and the reopened file must show it again.
+	apply := func(c map[string][]pv, ks [][]byte, lo, hi int64) map[string][]pv {
+		out := map[string][]pv{}
+		del := map[string]bool{}
+		for _, k := range ks {
+			del[string(k)] = true
+		}
+		for k, l := range c {
+			var keep []pv
+			for _, p := range l {
+				if !(del[k] && p.ts >= lo && p.ts <= hi) {
+					keep = append(keep, p)
+				}
+			}
+			if len(keep) > 0 {
+				out[k] = keep
+			}
+		}
+		return out
+	}
+	same := func(a, b map[string][]pv) string {
+		var ks []string
+		for k := range a {
+			ks = append(ks, k)
+		}
+		for k := range b {
+			if _, ok := a[k]; !ok {
+				ks = append(ks, k)
+			}
+		}
+		sort.Strings(ks)
+		for _, k := range ks {
+			if d := diffPV(a[k], b[k]); d != "" {
+				return fmt.Sprintf("key %q: %s", k, d)
+			}
+		}
+		return ""
+	}
+	// the state the crash images are compared with: the file as a fresh reader sees it after this first commit
+	newSet := oldSet
+	if rdx, xerr := open(filepath.Join(work, base)); xerr == nil {
+		newSet = tset(rdx)
+		rdx.Close()
+	}
+	want := apply(before, keys, min, max)
+	if got, _, cerr := contentOf([]*tsm1.TSMReader{rd}); cerr == nil {
+		if d := same(want, got); d != "" {
+			r.Violate("C08:tombstone-range", "live-after-commit", "after DeleteRange(%d keys, [%d,%d]) + Commit the live reader does not hide exactly the recorded ranges: %s", len(keys), min, max, d)
+		}
+	}
+	// a second delete on OTHER keys whose range shares exactly one bound with the first (successive tombstones
+	// with a common min or max are a corner of the code that replays a tombstone file)
+	if len(r.Viol) == 0 && cfg.Bool(2, 3, "second-delete") {
+		var keys2 [][]byte
+		for i := 0; i < rd.KeyCount() && len(keys2) < 2; i++ {
+			k, _ := rd.KeyAt(i)
+			dup := false
+			for _, x := range keys {
+				dup = dup || string(x) == string(k)
+			}
+			if !dup {
+				keys2 = append(keys2, append([]byte{}, k...))
+			}
+		}
+		if len(keys2) > 0 {
+			min2, max2 := min, max
+			if cfg.Bool(1, 2, "share-max") {
+				min2, _ = rangeOf(cfg.Choose(nSlots, "tmin2"), nSlots-1)
+				if min2 > max2 {
+					min2 = max2
+				}
+			} else {
+				_, max2 = rangeOf(0, cfg.Choose(nSlots, "tmax2"))
+				if max2 < min2 {
+					max2 = min2
+				}
+			}
+			b2 := rd.BatchDelete()
+			if err := b2.DeleteRange(keys2, min2, max2); err == nil && b2.Commit() == nil {
+				want = apply(want, keys2, min2, max2)
+				r.Probe("probe_second_tombstone_commit_sharing_a_bound")
+				if got, _, cerr := contentOf([]*tsm1.TSMReader{rd}); cerr == nil {
+					if d := same(want, got); d != "" {
+						r.Violate("C08:tombstone-range", "live-after-second-commit", "after a second DeleteRange([%d,%d]) the live reader does not hide exactly the recorded ranges: %s", min2, max2, d)
+					}
+				}
+			}
+		}
+	}
 	rd.Close()
 	rd2, err := open(filepath.Join(work, base))
 	if err != nil {
 		r.Violate("C08:tombstone-reopen", "reopen-after-commit", "file does not reopen after a tombstone commit: %v", err)
 		return
 	}
-	newSet := tset(rd2)
+	if got, _, cerr := contentOf([]*tsm1.TSMReader{rd2}); cerr == nil && len(r.Viol) == 0 {
+		if d := same(want, got); d != "" {
+			r.Violate("C08:tombstone-range", "after-reopen", "after reopening the file its tombstones do not hide exactly the ranges that were recorded: %s", d)
+		}
+	}
 	rd2.Close()
 	r.Probe("probe_tombstone_commits")
 	for _, im := range imgs {
